@@ -1,4 +1,4 @@
-from typing import Union
+from typing import Union, Optional
 
 from tealer.utils.comparable_enum import ComparableEnum
 
@@ -93,7 +93,8 @@ TYPEENUM_TRANSACTION_TYPES = (
 )
 
 
-def oncompletion_to_tealer_type(value: Union[str, int]) -> "TealerTransactionType":
+def oncompletion_to_tealer_type(value: Union[str, int]) -> Optional["TealerTransactionType"]:
+    # returns None if the value is not a known constant.
     ENUM_NAMES_TO_INT = {
         "NoOp": 0,
         "OptIn": 1,
@@ -112,12 +113,17 @@ def oncompletion_to_tealer_type(value: Union[str, int]) -> "TealerTransactionTyp
     }
 
     if not isinstance(value, int):
+        if value not in ENUM_NAMES_TO_INT:
+            return None
         value = ENUM_NAMES_TO_INT[value]
 
+    if value not in INT_TO_TYPE:
+        return None
     return INT_TO_TYPE[value]
 
 
-def transaction_type_to_tealer_type(value: Union[str, int]) -> "TealerTransactionType":
+def transaction_type_to_tealer_type(value: Union[str, int]) -> Optional["TealerTransactionType"]:
+    # returns None if the value is not a known constant.
     ENUM_NAMES_TO_INT = {
         "pay": 1,
         "keyreg": 2,
@@ -136,8 +142,12 @@ def transaction_type_to_tealer_type(value: Union[str, int]) -> "TealerTransactio
     }
 
     if not isinstance(value, int):
+        if value not in ENUM_NAMES_TO_INT:
+            return None
         value = ENUM_NAMES_TO_INT[value]
 
+    if value not in INT_TO_TYPE:
+        return None
     return INT_TO_TYPE[value]
 
 
